@@ -8,9 +8,9 @@
 -/
 import RedkaModel.Proofs.ZSetRef
 
-namespace Redka.Model
+namespace Redka.ZSetRef
 
-open Redka Redka.Spec Redka.DB Redka.Scan
+open Redka Redka.Scan Redka.Spec Redka.Model Redka.DB
 
 /-! ### columns of `rkey` the abstraction can see -/
 
@@ -704,6 +704,13 @@ structure Upserted (now : Int) (db : DB) (k : Bytes) (z : List (Bytes × Score))
     (db1 : DB) (r : KeyRow) : Prop where
   key : zAddKey db k now = .ok (db1, r)
   live : liveAt now et = true
+  wf1 : db1.ZWF
+  mem : r ∈ db1.keys
+  ty : r.ty = TZSet
+  rkey : r.key = k
+  retime : r.etime = et
+  assoc : zAssoc db1 r.id = z
+  base : abs now db1 = put (abs now db) k ⟨.zset z, et⟩
   look : ∀ e, (zFind db1 r.id e).map (·.score) = aget z e
   wf : ∀ e s, (zSetRow db1 r.id e s).ZWF
   eff : ∀ e s, abs now (zSetRow db1 r.id e s) = put (abs now db) k ⟨.zset (aput z e s), et⟩
@@ -716,7 +723,8 @@ theorem upsert_absent {db : DB} (hz : db.ZWF) {now : Int} {k : Bytes} (h : db.fi
   have hr0 : r0 ∈ db1.keys := List.mem_append_right _ (by simp)
   have hnil : db1.zsets.filter (fun z => z.kid == r0.id) = [] := zKidRows_fresh hz
   have hA : zAssoc db1 r0.id = [] := zAssoc_of_filter_nil hnil
-  refine ⟨db1, r0, zAddKey_new h now, rfl, ?_, fun e s => zwf_zSetRow hz1 ⟨r0, hr0, rfl⟩ e s, ?_⟩
+  refine ⟨db1, r0, zAddKey_new h now, rfl, hz1, hr0, rfl, rfl, rfl, hA, abs_append_key hz h now, ?_,
+    fun e s => zwf_zSetRow hz1 ⟨r0, hr0, rfl⟩ e s, ?_⟩
   · intro e
     rw [← aget_zAssoc hz1.zuniq, hA]
   · intro e s
@@ -736,8 +744,13 @@ theorem upsert_zset {db : DB} (hz : db.ZWF) {now : Int} {k : Bytes} {old : KeyRo
   have hz1 : db1.ZWF := zwf_upsert_old hz ho now
   have hr1 : r1 ∈ db1.keys := mem_upsert_old ho now
   have hty1 : r1.ty = TZSet := ht
-  refine ⟨db1, r1, ?_, hlv, ?_, fun e s => zwf_zSetRow hz1 ⟨r1, hr1, rfl⟩ e s, ?_⟩
+  have hg : Spec.get (abs now db) k = some ⟨.zset (zAssoc db old.id), old.etime⟩ := by
+    rw [get_abs hz.names, h]; simp [rowEntry, hlv, absVal_zset ht]
+  refine ⟨db1, r1, ?_, hlv, hz1, hr1, hty1, hok, rfl, rfl, ?_, ?_,
+    fun e s => zwf_zSetRow hz1 ⟨r1, hr1, rfl⟩ e s, ?_⟩
   · rw [zAddKey_eq, keyUpsert_old h ht]
+  · rw [abs_upsert_old hz ho now]
+    exact (put_get_self (sorted_abs hz.names now) hg).symm
   · intro e
     exact (aget_zAssoc hz.zuniq old.id e).symm
   · intro e s
@@ -1442,4 +1455,4 @@ theorem zDeleteScore_wf {db : DB} (hz : db.ZWF) (k : Bytes) (lo hi : Score) (now
     (update (fun d => Model.zDeleteScore d k lo hi now) db).db.ZWF :=
   update_zwf hz (fun _ _ => zDeleteWhere_wf hz now k _)
 
-end Redka.Model
+end Redka.ZSetRef
